@@ -3,7 +3,6 @@
 package rest
 
 import (
-	"os"
 	"github.com/couchbase/go-blip"
 	"bytes"
 	"encoding/json"
